@@ -17,6 +17,7 @@ import (
 type swInfo struct {
 	sw      *ast.SwitchStmt
 	tag     string
+	tagObj  types.Object // the variable switched over, when the tag is one
 	clauses []*swClause
 	parent  *swClause // enclosing clause of an outer switch, if any
 }
@@ -42,6 +43,9 @@ func switches(p *core.Program, f *core.Func) []*swInfo {
 		si := &swInfo{sw: sw}
 		if sw.Tag != nil {
 			si.tag = exprStr(sw.Tag)
+			if id, isID := ast.Unparen(sw.Tag).(*ast.Ident); isID {
+				si.tagObj = info.Uses[id]
+			}
 		}
 		if cc := enclosingCase(p, sw); cc != nil {
 			si.parent = byCC[cc]
